@@ -16,6 +16,7 @@ M2/M3 (a) slot lists of real guards vs the spec's (implementation layer, drift o
 import json, os, sys, re, subprocess, itertools
 sys.path.insert(0, os.path.join(os.path.dirname(os.path.abspath(__file__)), "..", "lib"))
 from vlib import *
+from vpar import validate_traces_parallel
 
 GEN = """SPECIFICATION Spec
 CONSTANTS
@@ -143,12 +144,11 @@ def run(ctx):
     traces = run_driver(ctx, scheds)
     if len(traces) != len(scheds):
         raise Undecided("driver returned %d traces for %d schedules" % (len(traces), len(scheds)))
-    if any(e["e"] == "Hang" for s in traces for e in traces[s]):
-        raise Undecided("free-running goroutines did not finish within the time limit (no scheduler there: not a verdict)")
+    hung = [s for s in traces if any(e["e"] == "Hang" for e in traces[s])]
     order = [s for s in sorted(traces) if scheds[s]["mode"] != "slots"]
     tl = [project(traces[s]) for s in order]
     # ---------------------------------------------------------------- M3
-    rejected = ctx.validate_traces("LatchPropTrace", "LatchPropTrace.cfg", tl, timeout=1500)
+    rejected = validate_traces_parallel(ctx, "LatchPropTrace", "LatchPropTrace.cfg", tl, timeout=1500)
     nevents = sum(len(t) for t in tl)
     ctx.log("M3: %d traces / %d events validated, %d contradicting events" % (len(tl), nevents, len(rejected)))
     bysched = {}
@@ -163,6 +163,10 @@ def run(ctx):
                 "Release2": "second Release was not harmless"}.get(pev["e"], "event not explained")
         rp = ctx.save_replay("violation-%d.json" % sid, {"schedule": scheds[sid], "rejected_line": line, "event": pev, "expected": want, "trace": traces[sid][:400]})
         ctx.violation(rp, "%s: %s (keys %s, steps %s; %d failing schedules in total)" % (what, json.dumps(pev), scheds[sid].get("keys"), scheds[sid].get("steps"), len(bysched)))
+    if hung and not bysched:
+        raise Undecided("%d free-running runs did not finish within the time limit and no gated schedule failed (no scheduler there: not a verdict)" % len(hung))
+    if hung:
+        ctx.notes.append("%d free-running runs did not finish within the time limit" % len(hung))
     # (a) implementation layer: drift only
     slot_sid = [s for s in traces if scheds[s]["mode"] == "slots"][0]
     sl = [{"e": "Slots", "stripes": e["stripes"], "slots": e["slots"]} for e in traces[slot_sid]]
